@@ -208,10 +208,11 @@ def cases(tier, rng):
             out.append(("%s_%s_%s_%s" % (op, "_".join(str(x) for x in w), "+".join(kinds), "+".join(n for n, _ in c)), op, w, [r for _, r in c], res))
     return out
 
-def run_all(rep, tier, seed):
+def run_all(rep, tier, seed, only=None):
+    """only: predicate on the handler name (None = every handler of the table)"""
     load_opcodes()
     rng = Rng(seed * 1000003 + 17)
-    cs = cases(tier, rng)
+    cs = [c for c in cases(tier, rng) if only is None or only(c[1])]
     h = vm_corr.VmHarness()
     st = dict(cases=len(cs), ok=0, both_crash=0, diverge=0, impl_crash=0, by_handler={})
     bad = []
